@@ -449,23 +449,45 @@ type eobs struct {
 }
 
 func queued(name string, cfg hlib.ChanCfg, plans [][]reqSpec, p prog, bound int) *explore.Scenario {
+	return queuedShared(name, cfg, plans, p, bound, false)
+}
+
+// queuedShared: with shared, ONE adapter instance (xhttp.Handler(h)) serves every connection, the way an
+// application that builds its handlers once and adds them to each new pipeline uses it; h tells the
+// connections apart by the Host header.
+func queuedShared(name string, cfg hlib.ChanCfg, plans [][]reqSpec, p prog, bound int, shared bool) *explore.Scenario {
 	return &explore.Scenario{
-		Name:  fmt.Sprintf("queued/%s/%s/%+v", cfg, name, p),
+		Name:  fmt.Sprintf("queued/%s/%s/%d connections/%+v", cfg, name, len(plans), p),
 		Bound: bound,
 		Cache: true,
 		Cfg:   vsched.Config{MaxSteps: 20000},
 		Init:  func() any { return &eobs{} },
 		Body: func(v any) {
 			o := v.(*eobs)
+			var adapter netty.Handler
+			if shared {
+				adapter = xhttp.Handler(http.HandlerFunc(func(w http.ResponseWriter, r *http.Request) {
+					var k int
+					fmt.Sscanf(r.Host, "conn%d.test", &k)
+					o.conns[k].rc.ServeHTTP(w, r)
+				}))
+			}
 			for i, reqs := range plans {
 				cn := &conn{reqs: reqs, stream: streamOf(reqs)}
+				if shared {
+					cn.stream = bytes.ReplaceAll(cn.stream, []byte("Host: example.test"), []byte(fmt.Sprintf("Host: conn%d.test", i)))
+				}
 				cn.rc = &recorder{p: p, pause: func() { vsched.Yield("handler between writes") }}
 				o.conns = append(o.conns, cn)
 				t := mock.NewTransport(fmt.Sprintf("c%d", i))
 				t.In = [][]byte{cn.stream}
 				t.EOFAtEnd = true
 				pl := netty.NewPipeline()
-				pl.AddLast(xhttp.ServerCodec(), xhttp.Handler(cn.rc))
+				if shared {
+					pl.AddLast(xhttp.ServerCodec(), adapter)
+				} else {
+					pl.AddLast(xhttp.ServerCodec(), xhttp.Handler(cn.rc))
+				}
 				cn.env = &hlib.Env{T: t, PL: pl}
 				cn.env.Ch = cfg.Factory()(int64(i+1), context.Background(), pl, t, netty.AsyncExecutor())
 				pl.ServeChannel(cn.env.Ch) // returns once active was delivered; the read loop keeps running
@@ -517,8 +539,11 @@ func build(tier string) []*explore.Scenario {
 	}
 	for _, cfg := range []hlib.ChanCfg{{4, true}, {1, true}} {
 		scs = append(scs,
+			// (one deviation more: Close polls the sender every 100ms, so catching the sender between two of
+			// its steps takes a preemption plus a clock tick or a second preemption)
 			queued("close-path", cfg, [][]reqSpec{{post, getClose}}, prog{0, "cl", []int{14}, "", "all"}, b),
-			queued("close-path", cfg, [][]reqSpec{{getClose}}, prog{200, "none", []int{2049}, "", "none"}, b),
+			queued("close-path", cfg, [][]reqSpec{{getClose}}, prog{200, "none", []int{2049}, "", "none"}, b+1),
+			queued("close-path", cfg, [][]reqSpec{{getClose}}, prog{0, "cl", []int{14}, "", "none"}, b+1),
 			queued("close-path", cfg, [][]reqSpec{{get, getClose}}, prog{404, "chunked", []int{2048, 1}, "", "none"}, b),
 			// two connections whose handlers overlap (shared writer pool)
 			sharded(queued("two-connections", cfg, [][]reqSpec{{getClose}, {getClose}}, prog{0, "cl", []int{14, 14}, "", "none"}, b)),
@@ -528,13 +553,21 @@ func build(tier string) []*explore.Scenario {
 	tc := queued("two-connections", hlib.ChanCfg{Q: 4, Until: true}, [][]reqSpec{{get, getClose}, {getClose}}, prog{0, "cl", []int{14}, "end", "none"}, b)
 	tc.Shards = 8
 	scs = append(scs, tc)
+	// one adapter instance shared by two / three connections
+	scs = append(scs,
+		sharded(queuedShared("shared-adapter", hlib.ChanCfg{}, [][]reqSpec{{get, getClose}, {post, getClose}}, prog{0, "cl", []int{14}, "", "all"}, 1, true)),
+		sharded(queuedShared("shared-adapter", hlib.ChanCfg{Q: 4, Until: true}, [][]reqSpec{{getClose}, {getClose}}, prog{0, "cl", []int{14}, "", "none"}, 1, true)),
+	)
+	if th {
+		scs = append(scs, sharded(queuedShared("shared-adapter", hlib.ChanCfg{}, [][]reqSpec{{getClose}, {getClose}, {getClose}}, prog{404, "chunked", []int{14, 3}, "", "none"}, 1, true)))
+	}
 	return scs
 }
 
 func main() {
 	explore.Main(explore.Spec{
 		Property: "C15",
-		Rule:     "sequential part: every request sequence (all single requests over {GET, POST CL 0, POST CL 5, POST chunked, POST with a request-looking body} x {HTTP/1.1, 1.0} x {no Connection header, close, keep-alive}; 49 pairs; 3 triples) x fragmentation (whole, 1-byte reads, single cuts) x handler program ([WriteHeader(200|404)]? x {Content-Length, chunked, neither} x 0-2 writes around the 2048-byte buffer x Flush {none, end, middle} x body consumption {none, half, all}; only self-consistent programs) on ServerCodec()+Handler(h) over the real sync channel and read loop; E1 part: queued blocking channels aq(4,B)/aq(1,B) (non-blocking queues that refuse writes are outside the property) with the background sender, the Connection: close path and two overlapping connections sharing the writer pool, all interleavings up to 1-2 preemptions. Oracle: handler invocations == the requests net/http reads from the same bytes (method, target, proto, headers, body), one response per served request parsed by http.ReadResponse with the same status / marker header / body, no further request served after a close-requesting request or a non-self-delimiting response, transport closed after the last response byte was flushed. distinct = distinct cases / observations",
+		Rule:     "sequential part: every request sequence (all single requests over {GET, POST CL 0, POST CL 5, POST chunked, POST with a request-looking body} x {HTTP/1.1, 1.0} x {no Connection header, close, keep-alive}; 49 pairs; 3 triples) x fragmentation (whole, 1-byte reads, single cuts) x handler program ([WriteHeader(200|404)]? x {Content-Length, chunked, neither} x 0-2 writes around the 2048-byte buffer x Flush {none, end, middle} x body consumption {none, half, all}; only self-consistent programs) on ServerCodec()+Handler(h) over the real sync channel and read loop; E1 part: queued blocking channels aq(4,B)/aq(1,B) (non-blocking queues that refuse writes are outside the property) with the background sender, the Connection: close path two overlapping connections sharing the writer pool, and two / three connections served by ONE shared adapter instance (also on the sync channel), all interleavings up to 1-2 preemptions. Oracle: handler invocations == the requests net/http reads from the same bytes (method, target, proto, headers, body), one response per served request parsed by http.ReadResponse with the same status / marker header / body, no further request served after a close-requesting request or a non-self-delimiting response, transport closed after the last response byte was flushed. distinct = distinct cases / observations",
 		Assume:   []string{"net/http's ReadRequest/ReadResponse are the reference parsers", "handler programs are self-consistent (declared Content-Length equals bytes written)", "closing a connection that could have stayed open is allowed by the property's 'only if'"},
 		Build:    build,
 	})
